@@ -4,7 +4,7 @@
 "verification" and writes seeded/RESULTS.md."""
 import json, os, re, subprocess, sys, time
 ROOT = os.path.dirname(os.path.dirname(os.path.abspath(__file__)))
-extra = {"C14-m8": ["C18"], "C17-m7": ["C20"], "C06-m8": ["C10", "C02"], "C10-m6": ["C01"], "C08-m7": ["C16"], "C05-m7": ["C15"], "C18-m7": ["C09"], "C04-m7": ["C09"], "C11-m8": ["C07"], "C07-m7": ["C11"], "C18-m5": ["C07"], "C03-m5": ["C04"], "C19-m5": ["C12"], "C12-m5": ["C19"], "C08-m6": ["C07"], "C20-m5": ["C07"], "C07-m6": ["C08"], "C17-m6": ["C04"], "C04-m5": ["C17"], "C06-m5": ["C15"], "C14-m5": ["C09"], "C14-m6": ["C09"], "C16-m5": ["C15"], "C05-m3": ["C10", "C14"], "C01-m3": ["C10"], "C04-m4": ["C10"], "C06-m4": ["C10", "C02"], "C09-m3": ["C14"], "C14-m3": ["C10", "C01"], "C20-m4": ["C07"], "C08-m3": ["C16"], "C16-m4": ["C08"], "C19-m3": ["C08"], "C18-m3": ["C09"], "C02-m4": ["C10"], "C20-m1": ["C07"], "C06-m1": ["C17"], "C12-m1": ["C11"], "C14-m1": ["C09"], "C14-m2": ["C09"], "C07-m1": ["C08"], "C08-m1": ["C07"]}
+extra = {"C17-m10": ["C04"], "C01-m10": ["C02", "C03"], "C04-m10": ["C19"], "C05-m10": ["C03"], "C06-m9": ["C15"], "C06-m10": ["C05"], "C08-m10": ["C09"], "C11-m9": ["C18"], "C12-m10": ["C11"], "C16-m10": ["C18"], "C18-m10": ["C09"], "C19-m10": ["C18"], "C20-m10": ["C03"], "C20-m9": ["C17"], "C03-m10": ["C10"], "C09-m9": ["C14"], "C14-m9": ["C09"], "C14-m8": ["C18"], "C17-m7": ["C20"], "C06-m8": ["C10", "C02"], "C10-m6": ["C01"], "C08-m7": ["C16"], "C05-m7": ["C15"], "C18-m7": ["C09"], "C04-m7": ["C09"], "C11-m8": ["C07"], "C07-m7": ["C11"], "C18-m5": ["C07"], "C03-m5": ["C04"], "C19-m5": ["C12"], "C12-m5": ["C19"], "C08-m6": ["C07"], "C20-m5": ["C07"], "C07-m6": ["C08"], "C17-m6": ["C04"], "C04-m5": ["C17"], "C06-m5": ["C15"], "C14-m5": ["C09"], "C14-m6": ["C09"], "C16-m5": ["C15"], "C05-m3": ["C10", "C14"], "C01-m3": ["C10"], "C04-m4": ["C10"], "C06-m4": ["C10", "C02"], "C09-m3": ["C14"], "C14-m3": ["C10", "C01"], "C20-m4": ["C07"], "C08-m3": ["C16"], "C16-m4": ["C08"], "C19-m3": ["C08"], "C18-m3": ["C09"], "C02-m4": ["C10"], "C20-m1": ["C07"], "C06-m1": ["C17"], "C12-m1": ["C11"], "C14-m1": ["C09"], "C14-m2": ["C09"], "C07-m1": ["C08"], "C08-m1": ["C07"]}
 rows = []
 only = [a for a in sys.argv[1:] if not a.startswith("--")]
 table_only = "--table-only" in sys.argv
